@@ -98,6 +98,22 @@ pub fn record_cut(out: &mut Out, tier: &str, seed: u64) {
         let p = V5::gen(&mut rng, &mut b, t5[i % t5.len()]);
         cut_events::<V5>(out, &mut rng, &p, false);
     }
+    // deterministic large shapes: fields of the maximal size, payloads on both sides of 64 KiB and of 1 MiB
+    // (a reader that switches strategy by size), cut at sampled positions incl. inside the payload
+    for p in crate::wire::max_field_packets_v3() {
+        cut_events::<V3>(out, &mut rng, &p, false);
+    }
+    for p in crate::wire::max_field_packets_v5() {
+        cut_events::<V5>(out, &mut rng, &p, false);
+    }
+    let mut sizes = vec![4095usize, 4096, 4097, 8192, 8193, 65535, 65536, 65537, 70000, 131073];
+    if tier == "thorough" {
+        sizes.extend([262143usize, 262145]);
+    }
+    for n in sizes {
+        cut_events::<V3>(out, &mut rng, &crate::wire::publish_v3(3, n, true), false);
+        cut_events::<V5>(out, &mut rng, &crate::wire::publish_v5(3, n), false);
+    }
 }
 
 // ------------------------------------------------------------------------------------------------
